@@ -9,6 +9,7 @@ CONSTANTS
   ReadEdits = FALSE
   FirstWriteKeeps = FALSE
   HookEditsOld = FALSE
+  LendsOld = FALSE
   InitKinds = {"absent", "present"}
   NCases = 1
   MinOps = 1
